@@ -4,13 +4,14 @@
 set -e
 Name=$1; name=$(echo "$Name" | tr 'A-Z' 'a-z')
 here=$(cd "$(dirname "$0")" && pwd)
-out=/verif/build/extract/$name
-mkdir -p /verif/build/bin /verif/build/extract
-rm -rf "/verif/build/extract/${name:?}"
+root=$(cd "$here/../.." && pwd)
+out=$root/build/extract/$name
+mkdir -p "$root/build/bin" "$root/build/extract"
+rm -rf "$root/build/extract/${name:?}"
 mkdir -p "$out"
 cp "$here/${Name}Extract.v" "$out/"
-(cd "$out" && timeout 900 coqc -Q /verif/coq/theories XV "${Name}Extract.v" > extract.log 2>&1) || { cat "$out/extract.log"; exit 1; }
+(cd "$out" && timeout 900 coqc -Q "$root/coq/theories" XV "${Name}Extract.v" > extract.log 2>&1) || { cat "$out/extract.log"; exit 1; }
 cp "$here/common.ml" "$here/${name}_driver.ml" "$out/"
 cd "$out"
 files=$(ocamlfind ocamldep -sort *.mli *.ml)
-timeout 900 ocamlfind ocamlopt -w -a -package str -linkpkg $files -o "/verif/build/bin/${name}model"
+timeout 900 ocamlfind ocamlopt -w -a -package str -linkpkg $files -o "$root/build/bin/${name}model"
